@@ -8,6 +8,7 @@ mod pipe;
 mod refmodel;
 mod core;
 mod sched;
+mod threads;
 mod wire;
 
 use std::time::Instant;
